@@ -38,6 +38,7 @@ type simPeerSpec struct {
 	SendMax    uint32 // gobgp add-path send-max towards the peer (0 = off)
 	APRecv     bool   // gobgp accepts add-path from the peer
 	Hold       uint16 // speaker's hold time (0 = no keepalives)
+	Keepalive  bool   // the speaker sends KEEPALIVEs itself (every Hold/3) until told to go silent
 	GobgpHold  uint64 // gobgp's configured hold time (0 = default 90)
 	ExportPol  *api.ApplyPolicy
 	ApplyPol   *api.ApplyPolicy
@@ -83,7 +84,7 @@ func (ps simPeerSpec) apiPeer() *api.Peer {
 }
 
 func (ps simPeerSpec) speakerConf() simSpeakerConf {
-	c := simSpeakerConf{Addr: ps.Addr, AS: ps.AS, ID: ps.ID, Hold: ps.Hold, Families: ps.families()}
+	c := simSpeakerConf{Addr: ps.Addr, AS: ps.AS, ID: ps.ID, Hold: ps.Hold, Keepalive: ps.Keepalive, Families: ps.families()}
 	ap := map[bgp.Family]bgp.BGPAddPathMode{}
 	for _, f := range ps.families() {
 		var m bgp.BGPAddPathMode
